@@ -662,8 +662,9 @@ def ruleDateTimeDateTime(
 @rule(predicate("isTOD"), _regex_to_join, predicate("isTOD"))
 def ruleTODTOD(ts: datetime, t1: Time, _: RegexMatch, t2: Time) -> Interval:
     if (t1.hour > t2.hour) and (t1.hour <= 12 and t2.hour <= 12):
-        t2.hour = t2.hour + 12
-        return Interval(t_from=t1, t_to=t2)
+        # build a new value: t2 is shared with other partial parses
+        t2_pm = Time(hour=t2.hour + 12, minute=t2.minute).update_span(t2)
+        return Interval(t_from=t1, t_to=t2_pm)
     else:
         return Interval(t_from=t1, t_to=t2)
 
